@@ -54,11 +54,12 @@ class CallMixin:
             if n in self.ext_models: return ('model', self.ext_models[n])
             if n in self.stmt_models: return ('stmtmodel', self.stmt_models[n])
             if n in BUILTINS: return ('builtin', n)
-            if self.spec_mode and (n in SPECFUNS or n in self.defs): return ('spec', n)
+            if self.spec_mode and (n in SPECFUNS or n in self.defs or n in self.spec_ext): return ('spec', n)
             fn = self.repo.find_function(self.fn.module, n) or self.find_imported(n)
             if fn is not None: return self.repo_callee(fn, None)
             cls_init = self.repo.find_method(n, '__init__')
-            if cls_init is not None: return ('new', n, cls_init)
+            if cls_init is not None or any(f.qualname.startswith(n + '.') for f in self.repo.funcs.values()):
+                return ('new', n, cls_init)
             raise Undecided('call of unknown function %s at line %d' % (n, e.lineno))
         if isinstance(f, ast.Attribute):
             dotted = self.dotted(f)
@@ -171,6 +172,7 @@ class CallMixin:
         else:
             oid = self.new_oid(); p.objs[oid] = {}
             selfv = VObj(oid, cls)
+        if init is None: return self.finish_call(selfv, p, target, line)
         res = self.inline_call(init, selfv, args, kwargs, p, None, line)
         out = []
         for st, q, pay in res:
